@@ -83,6 +83,9 @@ type probeBlock struct {
 	// after: the probe is triggered by '=' and cannot interrupt a paragraph (scale 4: it is asked
 	// only once the paragraph before the line has been transformed away)
 	after bool
+	// only: the probe looks at lines that begin with this byte only (0 = every line); scale 5 - a
+	// trigger-less probe on a paragraph continuation line that begins with a trigger byte
+	only byte
 }
 
 func (p *probeBlock) Trigger() []byte {
@@ -95,6 +98,11 @@ func (p *probeBlock) Trigger() []byte {
 	return nil
 }
 func (p *probeBlock) Open(parent ast.Node, reader text.Reader, pc parser.Context) (ast.Node, parser.State) {
+	if p.only != 0 {
+		if line, _ := reader.PeekLine(); len(line) == 0 || line[0] != p.only {
+			return nil, parser.NoChildren
+		}
+	}
 	p.log.ev = append(p.log.ev, p.name)
 	if !p.accept {
 		return nil, parser.NoChildren
@@ -160,7 +168,7 @@ var builtinPrio = map[string]int{"inline": 500, "block": 1000, "para": 100, "ast
 func concretePrio(class string, rank, scale int) int {
 	b := builtinPrio[class]
 	switch scale {
-	case 0, 3:
+	case 0, 3, 5:
 		return b + (rank - 3)
 	case 1:
 		return b + (rank-3)*100000
@@ -211,9 +219,9 @@ func runRegCfg(cf regCfg) (log []string, winner string, out string, err error) {
 				popt = parser.WithInlineParsers(shared[:1]...)
 				decoy = parser.WithInlineParsers(util.Prioritized(&probeInline{"decoy", true, dl}, decoyPrio))
 			case "block":
-				shared = append(shared, util.Prioritized(&probeBlock{name, cf.Accept[name], cf.Trig[name], pl, cf.Scale == 4}, prio))
+				shared = append(shared, util.Prioritized(&probeBlock{name, cf.Accept[name], cf.Trig[name], pl, cf.Scale == 4, onlyByte(cf.Scale)}, prio))
 				popt = parser.WithBlockParsers(shared[:1]...)
-				decoy = parser.WithBlockParsers(util.Prioritized(&probeBlock{"decoy", true, true, dl, false}, decoyPrio))
+				decoy = parser.WithBlockParsers(util.Prioritized(&probeBlock{"decoy", true, true, dl, false, 0}, decoyPrio))
 			case "para":
 				shared = append(shared, util.Prioritized(&probePara{name, pl}, prio))
 				popt = parser.WithParagraphTransformers(shared[:1]...)
@@ -240,7 +248,7 @@ func runRegCfg(cf regCfg) (log []string, winner string, out string, err error) {
 		case "inline":
 			popt = parser.WithInlineParsers(util.Prioritized(&probeInline{name, cf.Accept[name], pl}, prio))
 		case "block":
-			popt = parser.WithBlockParsers(util.Prioritized(&probeBlock{name, cf.Accept[name], cf.Trig[name], pl, cf.Scale == 4}, prio))
+			popt = parser.WithBlockParsers(util.Prioritized(&probeBlock{name, cf.Accept[name], cf.Trig[name], pl, cf.Scale == 4, onlyByte(cf.Scale)}, prio))
 		case "para":
 			popt = parser.WithParagraphTransformers(util.Prioritized(&probePara{name, pl}, prio))
 		case "ast":
@@ -272,6 +280,12 @@ func runRegCfg(cf regCfg) (log []string, winner string, out string, err error) {
 	}
 	doc := map[string]string{"inline": "*a\n", "block": "@x\n", "para": "x\n", "ast": "x\n", "render": "---\n"}[cf.Class]
 	plain := "<p>@x</p>\n"
+	if cf.Scale == 5 {
+		// the line "=x" continues a paragraph and begins with a byte that triggers a built-in parser
+		// (Setext) which declines: the trigger-less parsers that may interrupt a paragraph are asked
+		// next, in priority order; the paragraph parser itself takes no part on such a line
+		doc, plain = "a\n=x\n", "<p>a\n=x</p>\n"
+	}
 	if cf.Scale == 4 {
 		// the line "===" follows a paragraph that a paragraph transformer removes (a link reference
 		// definition): the Setext parser is discarded and the parsers are asked again, in priority order
@@ -310,6 +324,13 @@ func runRegCfg(cf regCfg) (log []string, winner string, out string, err error) {
 	return pl.ev, winner, out, nil
 }
 
+func onlyByte(scale int) byte {
+	if scale == 5 {
+		return '='
+	}
+	return 0
+}
+
 func judgeReg(cf regCfg) (bool, string) {
 	log, winner, out, err := runRegCfg(cf)
 	if err != nil {
@@ -319,6 +340,20 @@ func judgeReg(cf regCfg) (bool, string) {
 	for _, n := range cf.Log {
 		if n != "builtin" {
 			want = append(want, n)
+		}
+	}
+	if cf.Scale == 5 {
+		// by priority alone, without the built-in paragraph parser: the probes in ascending rank
+		// up to the first that accepts
+		names := append([]string{}, cf.Order...)
+		sort.Slice(names, func(i, j int) bool { return cf.Rank[names[i]] < cf.Rank[names[j]] })
+		want, cf.Winner = nil, "builtin"
+		for _, n := range names {
+			want = append(want, n)
+			if cf.Accept[n] {
+				cf.Winner = n
+				break
+			}
 		}
 	}
 	if strings.Join(log, ",") != strings.Join(want, ",") {
@@ -514,6 +549,13 @@ func runC20(c *Ctx) {
 				}
 				if allTrig {
 					scales = append(scales, 4)
+				}
+				noTrig := true
+				for _, n := range cf.Order {
+					noTrig = noTrig && !cf.Trig[n]
+				}
+				if noTrig {
+					scales = append(scales, 5)
 				}
 			}
 			for _, sc := range scales {
